@@ -61,7 +61,7 @@ def make_tree(rnd, lb, mode, ultra):
 
 def run(ctx):
     ctx.rule = ('random sequences of 2-8 FILE operands (compressible, incompressible, empty, multi-block, tiny, each skip kind; for decompression '
-                'also corrupt, non-bzip2 and trailing-garbage operands, small and spanning several input blocks) in both modes incl. -u, with -k/-c/-f variants and 1-4 workers: the same scratch tree is '
+                'also corrupt, non-bzip2 and trailing-garbage operands, small and spanning several input blocks) in both modes incl. -u, with -k/-c/-f variants and 1-4 workers, one sequence in eight with an unwritable standard error (/dev/full): the same scratch tree is '
                 'processed once in ONE invocation and once operand by operand; trees (names, contents, modes, mtimes) and, for -c, the '
                 'concatenated stdout must be identical; status: 1 if a fatal operand was reached (earlier operands complete, later untouched), '
                 'else 4 if any operand alone gives 4, else 0; non-trivial = distinct operand sequence x flags')
@@ -76,6 +76,9 @@ def run(ctx):
         if mode == 'decompress' and rnd.random() < 0.2:
             flags = ['-c', '-f']            # -cdf: non-bzip2 operands are copied, the others decompressed
         jobs.append((i, mode, ultra, flags, rnd.choice([1, 2, 4]), rnd.randrange(1 << 30)))
+    # a share of the sequences runs with a standard error that cannot be written (/dev/full): the first diagnostic is then
+    # fatal -- in the combined run exactly where it is fatal in the operand-by-operand runs, and nothing done before is undone
+    badstderr = set(j[0] for j in jobs if j[5] % 8 == 0)
 
     def one(j):
         i, mode, ultra, flags, w, sd = j
@@ -103,13 +106,14 @@ def run(ctx):
                 os.utime(os.path.join(dB, n), ns=(st.st_atime_ns, st.st_mtime_ns))
         base = [lb] + (['-d'] if mode == 'decompress' else ['-1'] + (['-u'] if ultra else [])) + flags + ['-n', str(w)]
         env = lbz.sched_env(r2) if r2.random() < 0.3 else {}
-        rA = core.run(base + names, cwd=dA, env=env, timeout=300)
+        errp = '/dev/full' if i in badstderr else None
+        rA = core.run(base + names, cwd=dA, env=env, timeout=300, stderr_path=errp)
         ctx.ev()
         outB = b''
         statuses = []
         fatal_at = None
         for k, n in enumerate(names):
-            rb = core.run(base + [n], cwd=dB, timeout=300)
+            rb = core.run(base + [n], cwd=dB, timeout=300, stderr_path=errp)
             statuses.append(rb.status)
             outB += rb.out
             if rb.rc not in (0, 4):
@@ -118,6 +122,9 @@ def run(ctx):
         sA, sB = fm.snapshot(dA), fm.snapshot(dB)
         shutil.rmtree(dA, ignore_errors=True); shutil.rmtree(dB, ignore_errors=True)
         desc = dict(mode=mode, ultra=ultra, flags=flags, workers=w, operands=list(zip(names, kinds)), separate_statuses=statuses, env=env)
+        if errp:
+            desc['stderr'] = errp
+            ctx.count('sequences_with_unwritable_stderr')
         info = dict(desc, argv=['lbzip2'] + base[1:] + names, combined_status=rA.status, combined_stderr=rA.err[:400].decode(errors='replace'),
                     tree_combined=fm.brief(sA), tree_separate=fm.brief(sB))
         if lbz.bad_ending(ctx, rA, 'combined run %s' % desc, None, info):
